@@ -387,6 +387,12 @@ class Render:
         self.ws = ws
         self.br = br
 
+    def at(self):
+        # `#` is newer libwayland's spelling of `@` in front of an object ID, and the matcher takes either
+        if self.rng is not None and self.rng.random() < 0.35:
+            return '#'
+        return '@'
+
     def sp(self, default=''):
         if self.rng is not None and self.rng.random() < self.ws:
             return self.rng.choice([' ', '  ', ' '])
@@ -416,7 +422,7 @@ class Render:
         if 'type' in node:
             return self.brk(node['type'])
         if 'id' in node:
-            return self.brk(('@' if node.get('at') else '') + str(node['id']) + ('' if node['gen'] is None else history.letters(node['gen'])))
+            return self.brk((self.at() if node.get('at') else '') + str(node['id']) + ('' if node['gen'] is None else history.letters(node['gen'])))
         return self.lst(node, self.ospec)
 
     def val(self, node):
@@ -433,7 +439,7 @@ class Render:
         if 'nil' in node:
             return self.brk('nil')
         if 'oid' in node:
-            return self.brk('@' + str(node['oid']) + ('' if node['gen'] is None else history.letters(node['gen'])))
+            return self.brk(self.at() + str(node['oid']) + ('' if node['gen'] is None else history.letters(node['gen'])))
         return self.lst(node, self.val)
 
     def item(self, node, no_outer_bracket=False):
